@@ -668,7 +668,10 @@ def m_to_rfc3339(ex, site, a):
     if not is_sym(y) and not (0 <= y <= 9999): raise Unsupported('rfc3339 of year outside 0..9999')
     out = four(y) + [45] + two(d.fields[1]) + [45] + two(d.fields[2]) + [84] + two(t.fields[0]) + [58] + two(t.fields[1]) + [58]
     ns = t.fields[3]; sec = t.fields[2]
-    if is_sym(ns): raise Unsupported('rfc3339 of symbolic nanoseconds')
+    if is_sym(ns):
+        # printing needs the digit count of the fraction: the value is fixed to the solver's choice on this path (a stated
+        # sampling step, recorded in the decision trace)
+        ns = ex.concretize(ns); ex.side['concretized_fraction'] = True
     if ns >= 1000000000:
         sec = 60; ns -= 1000000000
     out += two(sec)
